@@ -397,6 +397,27 @@ def per_file_blocks(ctx, b):
     return out
 
 
+def _hash_ok_and_equal(pb, hs):
+    """predicate on an origin: `hash(..).await[.map_err(log)].is_ok_and(|h| h == saved)` - the hash was computed and equals a captured value"""
+    def p(o):
+        if o[0] != "call" or not re.search(r"Result::<.*>::is_ok_and(::<.*>)?$", callee_decl(o[3])):
+            return False
+        t_ = o[3]
+        l = operand_local(t_["args"][0]) if t_["args"] else None
+        if l is None or not origin_matches(origins(pb, l), is_await_of(lambda c: c in hs)):
+            return False
+        cbs = closure_bodies_passed(pb, t_)
+        def eq_param_captured(o2):
+            if o2[0] != "binop" or o2[1] != "Eq":
+                return False
+            sides = [o2[2], o2[3]]
+            par = [any(x[0] == "param" and x[1] == 2 for x in s_) for s_ in sides]
+            cap = [any(x[0] == "field" and any(y[0] == "param" and y[1] == 1 for y in x[2]) for x in s_) for s_ in sides]
+            return (par[0] and cap[1]) or (par[1] and cap[0])
+        return bool(cbs) and all(all(any(eq_param_captured(o2) for o2 in ret_origins(cb, p2)) for p2 in enumerate_paths(cb)) for cb in cbs)
+    return p
+
+
 @rule("C02.FS-EQ", ["C02"], """the file-state comparison returns true only if the number of listed files equals the number of recorded files and every
       listed file is recorded with an equal modification time or an equal content hash""", "K2", floor=3)
 def fs_eq(ctx):
@@ -458,6 +479,9 @@ def fs_eq(ctx):
                 mtime_equal = has_fact(facts, "bool", True, dur_eq)
                 hash_ok = has_fact(facts, "variant", ("Ok",), is_await_of(lambda c: c in hs))
                 hash_equal = any(o[0] == "binop" and o[1] == "Eq" and (origin_matches(o[2], is_await_of(lambda c: c in hs)) or origin_matches(o[3], is_await_of(lambda c: c in hs))) for o in ro)
+                if not (hash_ok and hash_equal):
+                    hoe = _hash_ok_and_equal(pb, hs)
+                    hash_ok = hash_equal = any(hoe(o) for o in ro) or has_fact(facts, "bool", True, hoe)
                 if not (some and mt_ok and (mtime_equal or (hash_ok and hash_equal))):
                     bad.append(p)
             ctx.check(not bad, f"{short(pfn)}/recorded+unchanged", [pb.loc()],
@@ -479,6 +503,9 @@ def sufficient_paths(ctx):
             by_time = by_hash = 0
             for (p, facts, ro) in tps2:
                 hashed = any(k == "variant" and origin_matches(o, is_await_of(lambda c: c in hs)) for (k, v, o, e) in facts)
+                if not hashed:
+                    hoe = _hash_ok_and_equal(pb, hs)
+                    hashed = any(hoe(o) for o in ro) or has_fact(facts, "bool", True, hoe)
                 def dur_eq(o):
                     return o[0] == "call" and o[1].endswith("PartialEq>::eq") and "Duration" in o[3]["callee"]["declared"]
                 if has_fact(facts, "bool", True, dur_eq) and not hashed:
@@ -780,7 +807,7 @@ def delete_state_sites(ctx):
                 ctx.check(bb in Rerr, lab, [site(cb, bb)], "the state reader deletes the record outside the decode-error branch")
             elif cb.name in (main_async.name, r.main_body().name):
                 def is_clean(d):
-                    return d[0] == "call" and d[1].endswith("ArgMatches::is_present") and len(d[2]) > 1 and any(a[0] == "static" and a[1].endswith("CLEAN") for a in d[2][1])
+                    return d[0] == "call" and d[1].endswith("ArgMatches::is_present") and len(d[2]) > 1 and any(a[0] in ("static", "constdef") and a[1].endswith("CLEAN") for a in d[2][1])
                 G = guard_region(cb, is_clean, True)
                 if not G:
                     # the flag was bound to a local before the async block: C12.SCOPE decides the clean scope; here only the caller matters
@@ -1013,6 +1040,7 @@ def _guarded_subtraction(body, bb, msg):
     if not m:
         return False
     k = m.group(1)
+    kv = body.facts.const_value(k) if "::" in k else None    # a named constant is compared by its value (its uses are resolved to the literal at load)
     for e in body.edges:
         l = e.label
         if not (l and l[0] == "bool" and l[2] is not None and bb in body.dominated_by_edge(e)):
@@ -1021,7 +1049,7 @@ def _guarded_subtraction(body, bb, msg):
             if d[0] != "binop":
                 continue
             def is_k(side):
-                return any(isinstance(y, tuple) and y and y[0] == "const" and (str(y[1]).startswith(k) or k.startswith(str(y[1])[:len(k)]) or str(y[1]).split("::")[-1].startswith(k.split("::")[-1])) for y in side)
+                return any(isinstance(y, tuple) and y and y[0] == "const" and (str(y[1]).startswith(k) or k.startswith(str(y[1])[:len(k)]) or str(y[1]).split("::")[-1].startswith(k.split("::")[-1]) or (kv is not None and str(y[1]) == kv)) for y in side)
             if (d[1] in ("Gt", "Ge") and is_k(d[3]) and l[1] is True) or (d[1] in ("Lt", "Le") and is_k(d[2]) and l[1] is True) or \
                (d[1] in ("Le", "Lt") and is_k(d[3]) and l[1] is False) or (d[1] in ("Ge", "Gt") and is_k(d[2]) and l[1] is False):
                 return True
